@@ -95,6 +95,14 @@ func r09_1(c *Ctx, r *Report) {
 	const rule = "R09.1"
 	r.rule(rule, "Package state inventory. No package-level variable of the library is stored to, or through (element, map entry, field of reachable memory), outside package initialisation, except the declared mutable set {calendar.CACHE_YEAR in NewLunarYear, HolidayUtil.dataInUse/namesInUse in Fix}; computed from the effects (E2) of every library function, with callee writes mapped onto caller arguments.")
 	writes := c.globalWrites()
+	writerSets := map[string]map[string]bool{}
+	for g, ws := range allowedGlobalWriters {
+		writerSets[g] = map[string]bool{}
+		for w := range ws {
+			writerSets[g][w] = true
+		}
+	}
+	c.closeOverHelpers(writerSets)
 	byGlobal := map[string][]gwrite{}
 	for _, w := range writes {
 		byGlobal[w.global] = append(byGlobal[w.global], w)
@@ -110,6 +118,10 @@ func r09_1(c *Ctx, r *Report) {
 		for _, w := range byGlobal[name] {
 			if reason, ok := allowedGlobalWriters[name][w.via]; ok {
 				r.ok(rule, "write to "+name+" in "+w.via, c.pos(w.pos), "declared mutable state: "+reason)
+				continue
+			}
+			if writerSets[name][w.via] {
+				r.ok(rule, "write to "+name+" in "+w.via, c.pos(w.pos), "declared mutable state, written by an unexported helper that only the declared writers call")
 				continue
 			}
 			bad = true
@@ -406,6 +418,8 @@ func r09_6(c *Ctx, r *Report) {
 			}
 		}
 	}
+	// an unexported helper all of whose callers are declared readers is part of the keyed lookup
+	c.closeOverHelpers(allowed)
 	n := 0
 	seen := map[string]int{}
 	for _, fn := range c.Funcs {
@@ -440,4 +454,47 @@ func r09_6(c *Ctx, r *Report) {
 		}
 	}
 	r.check(n >= 3, rule, "loads of history-dependent package state", "-", fmt.Sprintf("%d loads inventoried (floor 3)", n))
+}
+
+// closeOverHelpers extends each set of declared functions by the unexported helpers that are called
+// only from functions already in the set (a piece of a declared function moved into a helper).
+func (c *Ctx) closeOverHelpers(allowed map[string]map[string]bool) {
+	callers := map[*ssa.Function]map[string]bool{}
+	for _, fn := range c.Funcs {
+		for _, b := range fn.Blocks {
+			for _, ins := range b.Instrs {
+				if call, ok := ins.(ssa.CallInstruction); ok {
+					if callee := call.Common().StaticCallee(); callee != nil {
+						if callers[callee] == nil {
+							callers[callee] = map[string]bool{}
+						}
+						callers[callee][fname(fn)] = true
+					}
+				}
+			}
+		}
+	}
+	for changed := true; changed; {
+		changed = false
+		for _, fn := range c.Funcs {
+			if fn.Object() == nil || fn.Object().Exported() || len(callers[fn]) == 0 {
+				continue
+			}
+			for g, set := range allowed {
+				if set[fname(fn)] {
+					continue
+				}
+				all := true
+				for caller := range callers[fn] {
+					if !set[caller] {
+						all = false
+					}
+				}
+				if all {
+					allowed[g][fname(fn)] = true
+					changed = true
+				}
+			}
+		}
+	}
 }
